@@ -360,6 +360,7 @@ def run_c09(tier, seed):
                                            'failures': hf['failures'], 'warns': hf['warns'][:6]})
         else:
             oc.count('construction-error:' + str(o['err']))
+    reuse_and_remerge_check(oc, 'C09')
     oc.rule = ('collections built from state-aware random histories (G-hist) x {strict, non-strict} x '
                '{allow_incomplete} x {strings, files, fake S3}; non-trivial = at least one message failed or warned')
     return oc
@@ -686,6 +687,7 @@ def run_stage_checks(oc, pid, tier, seed):
             oc.nontrivial.add(stable_hash(['stages', h['docs'], strict]))
     if pid == 'C07':
         completed_collections_check(oc, pid)
+        reuse_and_remerge_check(oc, pid)
 
 
 def completed_collections_check(oc, pid):
@@ -762,6 +764,94 @@ def completed_collections_check(oc, pid):
             oc.failing.append({'kind': 'collection-stages', 'docs': full, 'strict': strict, 'label': f'second merge() of a completed collection strict={strict}',
                                'spec': 'a completed collection merged again refuses every message (MosCompletedMergeError / one warning each) and stays as it is',
                                'impl': {'err': err, 'warns': ws, 'unchanged': str(mc) == before}})
+
+
+def reuse_and_remerge_check(oc, pid):
+    """Order-of-use around collections: one list of readers used for two collections gives the same result twice (a
+    reader restores a fresh object every time, a collection keeps nothing on the readers); merge() called again on a
+    collection that has completed refuses every message and leaves ONE completion record; a completed, merged running
+    order given to a collection as its only document is reported completed."""
+    from mosromgr.moscollection import MosCollection, MosReader
+    from . import impl
+    N = lambda i: B.story(i, [B.item(i + '-1')])
+    docs = [TJ.to_text(B.ro_doc([N('A'), N('B')], message_id='1')), TJ.to_text(B.story_append([N('N')], message_id='2')),
+            TJ.to_text(B.item_delete('A', ['A-1', 'nowhere'], message_id='3')), TJ.to_text(B.story_insert('nowhere', [N('M')], message_id='4')),
+            TJ.to_text(B.story_delete(['B'], message_id='5')), TJ.to_text(B.ro_delete(message_id='9')),
+            TJ.to_text(B.story_append([N('LATE1')], message_id='10')), TJ.to_text(B.ready_to_air(message_id='11')), TJ.to_text(B.story_delete(['A'], message_id='12'))]
+
+    def run(mc, strict):
+        err = None
+        with warnings.catch_warnings(record=True) as w:
+            warnings.simplefilter('always')
+            try:
+                mc.merge(strict=strict)
+            except Exception as e:  # noqa: BLE001
+                err = impl.err_name(e)
+        return {'err': err, 'warns': impl.lib_warnings(w), 'text': str(mc), 'completed': bool(mc.completed),
+                'records': str(mc).count('<mosromgrmeta>')}
+
+    for with_late in (False, True):
+        for strict in (False, True):
+            use = docs if with_late else docs[:6]
+            with warnings.catch_warnings():
+                warnings.simplefilter('ignore')
+                readers = sorted(MosReader.from_string(t) for t in use)
+                mc1 = MosCollection(list(readers), allow_incomplete=True)       # (kept alive while the second one works)
+                first = run(mc1, strict)
+                mc2 = MosCollection(list(readers), allow_incomplete=True)
+                second = run(mc2, strict)
+                fresh = run(MosCollection.from_strings(list(use), allow_incomplete=True), strict)
+                # a reader hands out a NEW object every time it is asked
+                a_, b_ = readers[0].mos_object, readers[0].mos_object
+                if a_ is b_ or a_.xml is b_.xml or mc1.ro is mc2.ro:
+                    second = dict(second, shared_objects=True)
+            oc.evaluations += 1
+            oc.in_domain += 1
+            oc.count('reader-reuse')
+            if not (first == second == fresh):
+                oc.failing.append({'kind': 'collection-stages', 'docs': use, 'strict': strict, 'label': f'one list of readers, two collections (late messages: {with_late}) strict={strict}',
+                                   'spec': 'two collections over the same readers, and one over freshly read documents, merge to the same result with the same errors and warnings',
+                                   'impl': {'first': {k: first[k] for k in ('err', 'warns', 'completed', 'records')}, 'second': {k: second[k] for k in ('err', 'warns', 'completed', 'records')},
+                                            'fresh': {k: fresh[k] for k in ('err', 'warns', 'completed', 'records')}}})
+            # non-strict: every late message is reported, one warning each
+            if with_late and not strict and fresh['warns'].count('MosMergeNonStrictWarning') != 1 + 3:
+                oc.failing.append({'kind': 'collection-stages', 'docs': use, 'strict': strict, 'label': 'one failing and three late messages, non-strict',
+                                   'spec': 'one MosMergeNonStrictWarning per message that could not be merged (1 failing + 3 after the roDelete; the message that only warns is none)', 'impl': fresh['warns']})
+    # merge() once more on a collection that has completed
+    for strict in (False, True):
+        with warnings.catch_warnings():
+            warnings.simplefilter('ignore')
+            mc = MosCollection.from_strings(docs[:6])
+            mc.merge(strict=False)
+        before = str(mc)
+        again = run(mc, strict)
+        oc.evaluations += 1
+        oc.in_domain += 1
+        oc.count('merge-twice')
+        ok = again['text'] == before and again['completed'] and again['records'] == 1 and \
+            ((again['err'] == 'MosCompletedMergeError') if strict else (again['err'] is None and again['warns'].count('MosMergeNonStrictWarning') == 5))
+        if not ok:
+            oc.failing.append({'kind': 'collection-stages', 'docs': docs[:6], 'strict': strict, 'label': f'merge() called again on a completed collection strict={strict}',
+                               'spec': 'a completed collection merged again refuses every message, stays as it is and keeps exactly one completion record',
+                               'impl': {k: again[k] for k in ('err', 'warns', 'completed', 'records')}, 'unchanged': again['text'] == before})
+    # the merged, completed document read back through a collection
+    with warnings.catch_warnings():
+        warnings.simplefilter('ignore')
+        mc = MosCollection.from_strings(docs[:6])
+        mc.merge(strict=False)
+        text = str(mc)
+        for how, mk in (('from_strings', lambda: MosCollection.from_strings([text], allow_incomplete=True)),
+                        ('readers', lambda: MosCollection([MosReader.from_string(text)], allow_incomplete=True))):
+            back = mk()
+            oc.evaluations += 1
+            oc.in_domain += 1
+            oc.count('collection-readback')
+            state = {'completed': bool(back.completed), 'ro_completed': bool(back.ro.completed), 'same': str(back) == text}
+            after = run(back, False)
+            if state != {'completed': True, 'ro_completed': True, 'same': True} or after['text'] != text or not after['completed']:
+                oc.failing.append({'kind': 'collection-stages', 'docs': [text], 'strict': False, 'label': f'a completed running order read back through a collection ({how})',
+                                   'spec': 'a completed running order written out and read back - also as the document of a collection - is still completed and identical',
+                                   'impl': dict(state, after_merge={k: after[k] for k in ('err', 'completed', 'records')})})
 
 
 # ---- C11 ------------------------------------------------------------------------------------------
